@@ -9,7 +9,7 @@ import codecgen as G
 
 # header and parameter values both readers derive and keep in their state (compared at every picture)
 PARAM_KEYS = ["video_parameters", "luma_depth", "color_diff_depth", "picture_coding_mode", "major_version", "minor_version", "profile", "level",
-              "slice_bytes_numerator", "slice_bytes_denominator", "slice_prefix_bytes", "slice_size_scaler"]
+              "slice_bytes_numerator", "slice_bytes_denominator", "slice_prefix_bytes", "slice_size_scaler", "quant_matrix"]
 
 
 def validate_capturing(data):
